@@ -66,11 +66,11 @@ theorem outputCtx_get (names : List String) (evaluated : Ctx) (n : String) :
 /-- A registry whose decision closures answer with the name of their variable and store a
 value under it (as the closures `graphStep` builds do). -/
 def AnswersVar (g : Drg) (gr : Graph) : Prop :=
-  ∀ id d input out n out', g.findDecision id = some d → gr.decision id input out = .ok (n, out') →
+  ∀ id d input sup out n out', g.findDecision id = some d → gr.decision id input sup out = .ok (n, out') →
     n = some d.var ∧ ∃ v, out' = Ctx.set out d.var v
 
 theorem answersVar_step (g : Drg) (env : Env) (prev : Graph) : AnswersVar g (graphStep g env prev) := by
-  intro id d input out n out' hf h
+  intro id d input sup out n out' hf h
   simp only [graphStep, hf, decisionClosure] at h
   split at h
   · split at h
@@ -93,10 +93,10 @@ theorem get_set_isSome (c : Ctx) (k : String) (v : Value) (n : String) (h : (Ctx
 
 /-- The names the output loop returns are the variables of the registered output decisions, in
 order, and every one of them has an entry in the context the loop leaves. -/
-theorem outputLoop_spec {g : Drg} {gr : Graph} (ha : AnswersVar g gr) (input : Ctx)
+theorem outputLoop_spec {g : Drg} {gr : Graph} (ha : AnswersVar g gr) (input sup : Ctx)
     (ids names0 : List String) (c : Ctx) (names : List String) (c2 : Ctx)
     (h0 : ∀ n ∈ names0, (Ctx.get c n).isSome = true)
-    (h : outputLoop (fun id c => callDecision g gr id input c) ids names0 c = .ok (names, c2)) :
+    (h : outputLoop (fun id c => callDecision g gr id input sup c) ids names0 c = .ok (names, c2)) :
     names = names0 ++ g.decisionVarNames ids ∧ ∀ n ∈ names, (Ctx.get c2 n).isSome = true := by
   induction ids generalizing names0 c with
   | nil =>
@@ -114,13 +114,13 @@ theorem outputLoop_spec {g : Drg} {gr : Graph} (ha : AnswersVar g gr) (input : C
       simp [decisionVarNames, hf]
     | some d =>
       simp only [callDecision, hf] at h
-      cases hr : gr.decision id input c with
+      cases hr : gr.decision id input sup c with
       | panic p => rw [hr] at h; cases h
       | diverge => rw [hr] at h; cases h
       | ok r =>
         obtain ⟨n, c'⟩ := r
         rw [hr] at h
-        obtain ⟨hn, v, hc'⟩ := ha id d input c n c' hf hr
+        obtain ⟨hn, v, hc'⟩ := ha id d input sup c n c' hf hr
         subst hn hc'
         simp only [] at h
         have h0' : ∀ n ∈ names0 ++ [d.var], (Ctx.get (Ctx.set c d.var v) n).isSome = true := by
